@@ -829,7 +829,7 @@ def reference_pick_only_compared(ctx, fx, body, bb, t):
     comparison's `differs` edge leads to an Err return."""
     from ..core import uses_of_local as uol
     root = fx.root_of(fx.fns[body.key]) if body.key in fx.fns else None
-    if root is None or fx.fns[body.key]["kind"] == "Closure" or t["dst"]["p"]:
+    if root is None or t["dst"]["p"]:
         return False
     b = ctx.region(None, policy="private", key=root["key"], ps=True)
     same = [(i, tt) for (i, tt) in b.calls() if callee_name(tt) == callee_name(t) and tt["at"] == t["at"] and b.blocks[i].get("origin_key", body.key) == body.key]
@@ -933,7 +933,9 @@ def allow_owner(fx, cg, fpath, what):
         stack.extend(callers)
     if len(owners) == 1:
         o = next(iter(owners))
-        if o.rsplit("::", 1)[0] == fpath.rsplit("::", 1)[0] or fpath.startswith(o.rsplit("::", 1)[0]):
+        of = [f for f in fx.doc["fns"] if clean(f["path"]) == o]
+        # same source file = same module (private items are not visible further)
+        if len(of) == 1 and (of[0].get("at") or "").split(":")[0] == (cands[0].get("at") or "").split(":")[0]:
             return o
     return None
 
